@@ -467,12 +467,14 @@ def rule_stop_flag(ctx, cfg, F):
         if not stopped_targets:
             R.violate("%s:no-flag-test" % f.path, "%s tests the proxy state but no edge stands for `already shut down` (%s)" % (f.path, stopped), f.path, f.loc(flag_switch), config=cfg)
             continue
-        if any(s in f.reachable(tt) for tt in stopped_targets for s in sends):
+        from vlib.flow import feasible_reach_without
+        # (feasible paths only: a helper that answers the test with `None` / `Some(guard)` is followed by the caller's match on that answer)
+        if any(s in f.reachable(tt) for tt in stopped_targets for s in sends) and any(feasible_reach_without(f, sends, [], start=tt) for tt in stopped_targets):
             R.violate("%s:flag-set-still-sends" % f.path, "with the shutdown flag set %s still sends to the router" % f.path, f.path, f.loc(flag_switch), config=cfg)
             continue
         # guard held: the MutexGuard local is dropped only after the last send
         guard_drops = [b for b in f.live_blocks() if f.term(b)["t"] == "drop" and "MutexGuard" in f.term(b)["ty"] and not f.is_cleanup(b)]
-        bad = [g for g in guard_drops if any(s in f.reachable(g) for s in sends)]
+        bad = [g for g in guard_drops if any(s in f.reachable(g) for s in sends) and feasible_reach_without(f, sends, [], start=g)]
         # several locks (the state in a mutex of its own beside the one around the channel ends): one guard taken before the test and kept across the sends is what makes
         # test-and-send atomic; a guard that only lived for the test itself does not matter then
         by_guard = {}
@@ -523,7 +525,7 @@ def rule_stop_flag(ctx, cfg, F):
                 R.violate("%s:ack-wait-skipped" % f.path, "%s records the stop and can then return without waiting for the router's acknowledgement on some path: when it returns the router "
                           "may still be invoking callbacks" % f.path, f.path, f.loc(skipped[0]), config=cfg)
                 continue
-            late = [g_ for g_ in guard_drops if any(w in f.reachable(g_) for w in waits)]
+            late = [g_ for g_ in guard_drops if any(w in f.reachable(g_) for w in waits) and feasible_reach_without(f, waits, [], start=g_)]
             if late and held_across(waits):
                 late = []
             if late:
